@@ -1078,8 +1078,9 @@ def main(run, replay=None):
         "without '|', dimension <= 4. The hypotheses are decided per case inside Coq (wf_join_b).",
         "Python's sorted/set/dict are modelled as stable insertion sort, first-occurrence de-duplication and an association list.",
         "Sub-domains: C13_get_subdomain_spec characterises every proper selection of a domain whose interface dictionary has unique "
-        "(minus patch, plus patch) keys and names (sub_hyps, decided per case by sub_hyps_b); an interface from a selected patch to "
-        "itself is outside the characterisation (C13_get_subdomain_self_interface_refuted).",
+        "(minus patch, plus patch) keys and names (sub_hyps, decided per case by sub_hyps_b) and C13_get_subdomain_total shows that it "
+        "never fails (model of the code after commit be11fac); an interface from a selected patch to itself is outside the "
+        "characterisation (C13_get_subdomain_self_interface_refuted).",
         "Shared corners: no Coq model; the implementation's grouping is compared with the geometric ground truth of the generated grid "
         "(2-D, geometrically consistent orientations) - sampling, not proof.",
         "In 3-D an interface whose minus/plus sides are exchanged by the name-clash rule keeps the declared orientation triple; whether the "
